@@ -2,6 +2,8 @@ import GeoVerif.Proofs.DMSClosure
 import GeoVerif.Proofs.DMSNul
 import GeoVerif.Proofs.DMSStrVal
 import GeoVerif.Proofs.DMSRoundTrip
+import GeoVerif.Proofs.Calendar
+import GeoVerif.Model.ParseLine
 /-!
 # C10 — text formatting and parsing of angles and positions: property theorems
 
@@ -680,5 +682,71 @@ theorem pieces_join : ∀ (fuel : Nat) (first : Bool) (t : Bytes), t.length ≤ 
 
 example : pieces 12 true (strBytes "S3-2.5+4.1N") = [strBytes "S3", strBytes "-2.5", strBytes "+4.1N"] := by decide
 example : pieces 8 true (strBytes "N-20d30") = [strBytes "N-20d30"] := by decide
+
+/-! ## Glue: the calendar of `Utility::day / date / dow`, `Utility::ParseLine`, `Utility::trim`
+
+`Calendar.dayRaw / dateRaw / dow` are the integer arithmetic of `src/Utility.cpp` with C++'s truncating `/` and `%`
+(the driver executes exactly these definitions against the implementation: every day of 0001-01-01 … 3300-12-31 in the
+thorough tier, 1352 … 2427 in the quick tier).  `Calendar.Valid / leap / monthLength / nextDate` are the calendar documented in
+`Utility.hpp`, stated without day numbers. -/
+open GeoVerif.Calendar in
+/-- **`date (day (y, m, d)) = (y, m, d)`** for every date of the documented calendar from 0001-01-01 on (all years, unbounded). -/
+theorem date_day (y m d : Int) (h : Valid y m d) : dateRaw (dayRaw y m d) = (y, m, d) :=
+  dateRaw_dayRaw y m d h
+
+open GeoVerif.Calendar in
+/-- the day number of a valid date is positive (`day(…, check = true)` does not reject it as "before 0001-01-01") -/
+theorem day_pos (y m d : Int) (h : Valid y m d) : 1 ≤ dayRaw y m d := dayRaw_pos y m d h
+
+open GeoVerif.Calendar in
+/-- **`day(y, m, d, check = true)` accepts every valid date** inside the guarded range and returns its day number -/
+theorem dayChecked_accepts (y m d : Int) (h : Valid y m d) (hy : y ≤ 200000) : dayChecked y m d = some (dayRaw y m d) :=
+  dayChecked_of_valid y m d h hy
+
+open GeoVerif.Calendar in
+/-- the two calendar tests of the code agree: a valid date is Gregorian by its (y, m, d) iff its day number is ≥ 639799 -/
+theorem switch_consistent (y m d : Int) (h : Valid y m d) : gregS (dayRaw y m d) = gregYMD y m d :=
+  gregS_dayRaw y m d h
+
+open GeoVerif.Calendar in
+/-- `dow` is 7-periodic and steps by one (for day numbers ≥ −5, where C++'s `%` is the mathematical one) -/
+theorem dow_periodic (s : Int) (h : -5 ≤ s) : dow (s + 7) = dow s ∧ dow (s + 1) = (dow s + 1) % 7 ∧ 0 ≤ dow s ∧ dow s ≤ 6 := by
+  unfold dow
+  rw [Int.tmod_eq_emod_of_nonneg (by omega), Int.tmod_eq_emod_of_nonneg (by omega), Int.tmod_eq_emod_of_nonneg (by omega)]
+  omega
+
+open GeoVerif.Calendar in
+/-- documented anchors: 0001-01-01 is day 1 and a Saturday; 1752-09-02 (Wednesday) is followed by 1752-09-14 (Thursday) = day 639799;
+    2000-01-01 was a Saturday, 1970-01-01 a Thursday; 1700 and 1752 have a February 29, 1800 and 1900 do not, 2000 does -/
+theorem calendar_anchors :
+    dayRaw 1 1 1 = 1 ∧ dow 1 = 6 ∧ dayRaw 1752 9 14 = 639799 ∧ dayRaw 1752 9 2 = 639798 ∧ dow 639798 = 3 ∧ dow 639799 = 4 ∧
+    dow (dayRaw 2000 1 1) = 6 ∧ dow (dayRaw 1970 1 1) = 4 ∧ dateRaw 639798 = (1752, 9, 2) ∧ dateRaw 639799 = (1752, 9, 14) ∧
+    Valid 1700 2 29 ∧ Valid 1752 2 29 ∧ ¬ Valid 1800 2 29 ∧ ¬ Valid 1900 2 29 ∧ Valid 2000 2 29 ∧ ¬ Valid 1752 9 3 ∧ ¬ Valid 1752 9 13 := by
+  decide
+
+open GeoVerif.Calendar in
+example : Valid 2024 2 29 ∧ nextDate 2024 2 29 = (2024, 3, 1) ∧ nextDate 1752 9 2 = (1752, 9, 14) ∧ nextDate 1999 12 31 = (2000, 1, 1) := by decide
+open GeoVerif.Calendar in
+example : dayChecked 2023 2 29 = none ∧ dayChecked 1752 9 5 = none ∧ dayChecked 0 12 31 = none ∧ (dayChecked 2012 7 2).isSome = true := by decide
+open GeoVerif.Calendar in
+/-- `fractionalyear`: 2010-01-01 ↦ 2010 + 0/365, 2012-07-02 ↦ 2012 + 183/366 = 2012.5 (the header's example says 07-03) -/
+example : fracYear 2010 1 1 = some (2010, 0, 365) ∧ fracYear 2012 7 2 = some (2012, 183, 366) ∧ fracYear 2012 7 3 = some (2012, 184, 366) ∧
+    fracYear 1752 12 31 = some (1752, 354, 355) := by decide
+
+/-! `Utility::ParseLine` / `trim`: executable model (`Model/ParseLine.lean`), compared exactly with the implementation on every
+sampled line; the documented examples below are decided on the model.  (No universally quantified `parseLine_spec` yet.) -/
+open GeoVerif.ParseLine in
+example : parseLine (strBytes "  Name = EGM 96  # comment") 61 35 = (true, strBytes "Name", strBytes "EGM 96") := by decide
+open GeoVerif.ParseLine in
+example : parseLine (strBytes "ID\tWMM2020") 0 35 = (true, strBytes "ID", strBytes "WMM2020") := by decide
+
+open GeoVerif.ParseLine in
+example : parseLine (strBytes " # only a comment") 0 35 = (false, [], []) ∧ parseLine (strBytes "= 5") 61 35 = (false, [], []) ∧
+    parseLine (strBytes "key") 61 35 = (true, strBytes "key", []) ∧ parseLine (strBytes "a b#c") 0 0 = (true, strBytes "a", strBytes "b#c") := by decide
+open GeoVerif.ParseLine in
+example : dispatch (strBytes "38SMB4488") = 1 ∧ dispatch (strBytes "33.3,44.4") = 2 ∧ dispatch (strBytes "38n 444000 3684000") = 3 ∧
+    dispatch (strBytes "444000 3684000 38n") = 4 ∧ dispatch (strBytes "1 2 3") = 0 ∧ dispatch (strBytes "") = 0 ∧ dispatch (strBytes "1 2 3 4") = 0 := by decide
+example : trim (strBytes " \t a b \n") = strBytes "a b" := by decide
+
 
 end GeoVerif.Props.C10
